@@ -95,7 +95,9 @@ def gen(rng, tier):
             dty = [float, float, np.int64, np.float32][(k // 3) % 4]
             r = guarded(impl_array, a, dt, trap, dty)
             site = 'calc_velo_and_disp_from_accel_arr' + ('' if dty is float else '[%s record]' % np.dtype(dty).name)
-        out.append((site, trap, dt, a, r, 0))
+        # float32 storage: numpy integrates in single precision (relative rounding 6e-8 per operation, accumulated over the
+        # record), which is rounding, not a defect: compared at 1e-3 of the series peak instead of exactly
+        out.append((site, trap, dt, a, r, 1e-3 if 'float32' in site else 0))
     for k in range(n_tol):
         n = gens.small_len(rng, 2, maxlen)
         a, style = gens.float_record(rng, n)
